@@ -1,8 +1,6 @@
 package returntodarkness
 
 import (
-	"math/rand"
-
 	"github.com/simimpact/srsim/pkg/engine"
 	"github.com/simimpact/srsim/pkg/engine/equip/lightcone"
 	"github.com/simimpact/srsim/pkg/engine/event"
@@ -59,7 +57,7 @@ func Create(engine engine.Engine, owner key.TargetID, lc info.LightCone) {
 func onAfterHitAll(mod *modifier.Instance, e event.HitEnd) {
 	state := mod.State().(*State)
 
-	if e.IsCrit && !state.wasTriggered && rand.Float64() < state.chance {
+	if e.IsCrit && !state.wasTriggered && mod.Engine().Rand().Float64() < state.chance {
 		mod.Engine().DispelStatus(e.Defender, info.Dispel{
 			Status: model.StatusType_STATUS_BUFF,
 			Order:  model.DispelOrder_LAST_ADDED,
